@@ -298,3 +298,58 @@ Proof.
     pose proof (H 2). pose proof (H 3). pose proof (H 5).
     unfold first10. cbn [In]. lia.
 Qed.
+
+(* ---------- two lists of primes: one is a prefix of the other ---------- *)
+Lemma take_le_prefix m l : exists c, l = take_le m l ++ c.
+Proof.
+  induction l as [| a l [c IH]]; cbn [take_le]; [exists []; reflexivity |].
+  destruct (a <=? m); [| exists (a :: l); reflexivity].
+  exists c. cbn [app]. f_equal. exact IH.
+Qed.
+
+Lemma SS_app_lt l1 l2 x y :
+  StronglySorted N.lt (l1 ++ l2) -> In x l1 -> In y l2 -> x < y.
+Proof.
+  induction l1 as [| a l1 IH]; intros S Ix Iy; [destruct Ix |].
+  cbn [app] in S. destruct Ix as [<- | Ix].
+  - apply (SS_lt_head _ _ _ S). apply in_or_app. right; auto.
+  - apply IH; auto. apply StronglySorted_inv in S; tauto.
+Qed.
+
+Lemma primes_upto_prefix l1 l2 m1 m2 :
+  primes_upto l1 m1 -> primes_upto l2 m2 -> m1 <= m2 ->
+  exists c, l2 = l1 ++ c /\ forall y, In y c -> m1 < y.
+Proof.
+  intros P1 P2 L.
+  pose proof (primes_upto_take l2 m1 m2 P2 L) as P1'.
+  destruct (take_le_prefix m1 l2) as [c Hc].
+  rewrite <- (primes_upto_unique _ _ _ P1 P1') in Hc.
+  exists c. split; auto. intros y Iy.
+  destruct (N.lt_ge_cases m1 y) as [| G]; auto. exfalso.
+  destruct P2 as [S2 H2]. destruct P1 as [S1 H1].
+  assert (I1 : In y l1).
+  { apply H1. split; auto. apply H2. rewrite Hc. apply in_or_app. right; auto. }
+  rewrite Hc in S2. pose proof (SS_app_lt _ _ _ _ S2 I1 Iy). lia.
+Qed.
+
+Lemma primes_upto_exists m : exists l, primes_upto l m.
+Proof.
+  induction m as [| m [l IH]] using N.peano_ind.
+  - exists []. split; [constructor |]. intros p; split; [intros [] |].
+    intros [[H _] L]. lia.
+  - assert (D : Nprime (N.succ m) \/ ~ Nprime (N.succ m)).
+    { destruct (N.le_gt_cases (N.succ m) 1) as [L | L].
+      - right. intros [H _]. lia.
+      - destruct (prime_or_factor _ L) as [P | (p & Pp & D & Q)]; [left; auto | right].
+        intros P. destruct Pp as [Hp1 Hp2].
+        assert (2 * p <= p * p) by (apply N.mul_le_mono_r; lia).
+        apply (Nprime_no_divisor _ p P D); lia. }
+    destruct D as [P | NP].
+    + exists (l ++ [N.succ m]). apply primes_upto_extend with (a := m); auto; [| | lia].
+      * repeat constructor.
+      * intros x; split.
+        -- intros [<- | []]. split; [lia | split; [lia | auto]].
+        -- intros (L1 & L2 & _). left. lia.
+    + exists l. apply primes_upto_weaken with (a := m); auto; [lia |].
+      intros x L1 L2. assert (x = N.succ m) by lia. subst x. auto.
+Qed.
